@@ -102,6 +102,11 @@ CHECKS = {
             "Every value (null, integers at every i8..u64 and f32/f64 exactness boundary, floats, strings, booleans, enums, lists to nesting 2) x every target (all integer widths incl. 128-bit, f32, f64, String, bool, char, Option, Vec, tuples, nested) from a row with an extra key and from EdgeParameters, plus all boundary-integer pairs into a two-field struct with an optional field: representable => exactly that value (floats bit-exact), integer out of range or wrong kind => error, never a panic.",
             "Target family fixed at compile time; f64->f32 narrowing only counted; two known findings (Enum todo!(), inexact int -> float).",
             "DESIGN.md §4 C18"),
+    "C19": ("exploration",
+            "bounded-exhaustive enumeration of schema documents within k deviations of two valid skeletons; Schema::parse under catch_unwind against an independent validator of the documented rules",
+            "Every schema document within 2 (quick, ~65k) / 3 (thorough, millions) deviations (type definitions added / removed / flipped, implements toggled, fields added over a menu of property / edge / custom / undefined / root / nested-list / depth-31 types with every kind of parameter default, field and parameter types changed, schema blocks, scalar and directive definitions): construction must return, and accept exactly when every documented rule holds (interfaces exist and are implemented transitively, inherited fields present and only narrowed, parameters identical and only widened, field types built-in or defined vertex types, no reserved names, no edges into the root, no property parameters, defaults fit, no cycles, no ambiguous origins). On the pinned tree validator and engine agree on every decided document; seven panic sites are known findings.",
+            "Documents touching what the documented rules are silent about (duplicate definitions, root properties, nested-list edges, non-built-in parameter types, schema-block count) are checked for no-panic only.",
+            "DESIGN.md §4 C19"),
     "C08": ("exploration",
             "exhaustive enumeration of all value pairs and triples over a boundary alphabet, against reference equality/order (i128)",
             "Every ordered pair and triple of a 44-value (quick) / larger (thorough) alphabet is compared with the real PartialEq/PartialOrd impls; equivalence, total-order and numeric-integer laws are checked on each. Exhaustive over the alphabet, which has one representative per class the comparison code distinguishes (sign, i64/u64 range overlap, kinds, nesting).",
